@@ -73,6 +73,12 @@ MUTANTS = {
     "update_no_children": ("core.py", "        for child in self.children:\n            child._update()\n", "", ["C16"]),
     "addmixins_no_update": ("core.py", "        self.mixins += mixins\n        self._update()\n", "        self.mixins += mixins\n", ["C16"]),
     "copy_shares_defns": ("core.py", "        return Ovld(mixins=[self, *mixins], linkback=linkback)", "        o = Ovld(mixins=[self, *mixins], linkback=linkback)\n        o._defns = self._defns\n        return o", ["C16"]),
+    # ---- C06
+    "sortkey_id": ("typemap.py", "        return self.priority, sum(self.specificity), self.tiebreak", "        return self.priority, sum(self.specificity), self.tiebreak, id(self.handler)", ["C06"]),
+    "sortkey_regorder": ("typemap.py", "        return self.priority, sum(self.specificity), self.tiebreak", "        return self.priority, sum(self.specificity), self.tiebreak, -self.handler.__code__.co_firstlineno, self.handler.__code__.co_filename", ["C06"]),
+    "union_order_first_member": ("types.py", "        classes = self.types\n        compare = [\n            x for t in classes if (x := typeorder(t, other)) is not Order.NONE\n        ]\n        if not compare:\n            return Order.NONE\n        elif any(x is Order.MORE",
+                                 "        classes = self.types[:1]\n        compare = [\n            x for t in classes if (x := typeorder(t, other)) is not Order.NONE\n        ]\n        if not compare:\n            return Order.NONE\n        elif any(x is Order.MORE", ["C06", "C12"]),
+    "dominates_by_regorder": ("typemap.py", "            return self.tiebreak > other.tiebreak", "            return (self.tiebreak, self.handler.__code__.co_filename) > (other.tiebreak, other.handler.__code__.co_filename)", ["C06", "C02"]),
     # ---- C17
     "ext_first_base_only": ("core.py", "                for other in others:\n                    prev.add_mixins(other)\n", "", ["C17"]),
     "ext_no_copy": ("core.py", "                prev = prev.copy()\n                for other in others:", "                for other in others:", ["C17"]),
